@@ -28,20 +28,20 @@ Definition sample_agree (r : option (list rng_call * scores)) (calls : list rng_
                    Z.eqb (easy_pos s) 0 && Z.eqb (easy_neg s) 0
   end.
 
-Definition bern_agree (r : res (list rng_call * list Z)) (raised : bool) (calls : list rng_call) (data : list Z) : bool :=
+Definition bern_agree (r : Res.res (list rng_call * list Z)) (raised : bool) (calls : list rng_call) (data : list Z) : bool :=
   match r with
   | ErrValue => raised
   | Ok (c, d) => negb raised && list_eqb (call_eqb 0) c calls && zlist_eqb d data
   end.
 
-Definition corr_agree (tol : Q) (r : res (list rng_call * (list Z * list Z))) (raised : bool) (calls : list rng_call)
+Definition corr_agree (tol : Q) (r : Res.res (list rng_call * (list Z * list Z))) (raised : bool) (calls : list rng_call)
     (r0 r1 : list Z) : bool :=
   match r with
   | ErrValue => raised
   | Ok (c, (d0, d1)) => negb raised && list_eqb (call_eqb tol) c calls && zlist_eqb d0 r0 && zlist_eqb d1 r1
   end.
 
-Definition roc_agree (tol : Q) (r : res (list Q * list Q * list Q)) (raised : bool) (fn fp th : list Q) : bool :=
+Definition roc_agree (tol : Q) (r : Res.res (list Q * list Q * list Q)) (raised : bool) (fn fp th : list Q) : bool :=
   match r with
   | ErrValue => raised
   | Ok (a, b, c) => negb raised && qlist_close20 tol a fn && qlist_close20 tol b fp && qlist_close20 tol c th
